@@ -16,7 +16,7 @@ type modelFn func(st *State, fr *Frame, fn *ssa.Function, args []Val, pos token.
 type ifaceModelFn func(st *State, fr *Frame, call *ssa.CallCommon, recv Val, args []Val, pos token.Pos) (*Val, bool)
 
 var models = map[string]modelFn{}
-var ifaceModels map[string]ifaceModelFn
+var ifaceModels = map[string]ifaceModelFn{}
 var callOutExtraWrites map[string][]string
 var callOutHooks map[string]func(st *State, fr *Frame, args []Val, res []Val, pos token.Pos)
 
@@ -148,7 +148,7 @@ func init() {
 	for k, v := range baseModels {
 		models[k] = v
 	}
-	ifaceModels = map[string]ifaceModelFn{
+	for k, v := range map[string]ifaceModelFn{
 		"context.Context.Value": func(st *State, fr *Frame, call *ssa.CallCommon, recv Val, args []Val, pos token.Pos) (*Val, bool) {
 			tag, val := st.ctxValue(recv, args[0])
 			return rv(Val{C: []string{tag, val}})
@@ -172,6 +172,8 @@ func init() {
 			st.assumeExpiryModel()
 			return rv(Val{C: []string{st.expAtOf(nil, recv.C[0], recv.C[1])}})
 		},
+	} {
+		ifaceModels[k] = v
 	}
 	callOutExtraWrites = map[string][]string{"Deleter.Delete": {"G|delok"}}
 	callOutHooks = map[string]func(st *State, fr *Frame, args []Val, res []Val, pos token.Pos){
